@@ -24,10 +24,13 @@ from harness.common import usbref as U
 from harness.props import ep_util as E
 
 PROP = "C12"
-LEAN_MODULES = ["LunaVerif.Props.C12"]
+# the refinement lemmas cycle level -> event level, one file per endpoint kind (import Props.C12)
+REFINE_MODULES = ["LunaVerif.Lemmas.C12SigRefine"]
+LEAN_MODULES = ["LunaVerif.Props.C12"] + REFINE_MODULES
 DRIVER = E.DRIVER
 REQUIRED_THEOREMS = ["in_step_foreign_is_silent", "out_step_foreign_is_silent", "sig_step_foreign_is_silent",
-                     "foreign_transaction_invisible", "mux_passes_selected", "at_most_one_answers"]
+                     "foreign_transaction_invisible", "mux_passes_selected", "at_most_one_answers",
+                     "sig_cycle_refines_event", "sig_cycle_refines_run"]
 RULE = ("dev: adaptive legal host schedules (IN/OUT/PING on 5 endpoints, unowned tokens, other devices, lost "
         "handshakes, retries, wrong PIDs, bad CRCs, control transfers incl. CLEAR_FEATURE(ENDPOINT_HALT)) on a "
         "random endpoint layout, each re-run with the foreign traffic deleted for 3 target endpoints; gate/mux: "
@@ -41,7 +44,9 @@ ASSUMPTIONS = [
 ]
 PARTIAL = ("foreign_transaction_invisible is proved on the event-level model (tied to the real device by event-level "
            "co-simulation and by the differential monitor); the per-cycle lemmas are proved on the cycle-level models "
-           "(tied by lock-step co-simulation); no cycle_refines_event lemma links the two Lean levels")
+           "(tied by lock-step co-simulation); the cycle-level model refines the event-level one for the status endpoint "
+           "(sig_cycle_refines_event / _run, little-endian configuration); no such refinement lemma yet for the stream IN "
+           "and stream OUT endpoints")
 
 I, O, P, S = U.PID_IN, U.PID_OUT, U.PID_PING, U.PID_SETUP
 
